@@ -39,7 +39,7 @@ CmdInfo(c) ==
 CcByte(cc) == CASE cc = "ok" -> 0 [] cc = "err" -> 193 [] cc = "busy" -> 192 [] cc = "tmo" -> 195
 \* 13.8: the response echoes the requester's sequence number / LUN byte of the request it answers (the library is free
 \* in its choice of sequence numbers; a BMC is not): taken from the request as received - decrypted, inside a session
-SeqEcho == IF InSession THEN Slice(ReqPlain(S), 4, 5) ELSE Slice(Req, 20, 21)
+SeqEcho == IF InSession THEN EchoS ELSE EchoN
 MsgFor(c, ccb, body) ==
   LET h1 == <<129, (CmdInfo(c).netfn + 1) * 4>>
       h2 == Cat(<< B(<<32>>), SeqEcho, B(<<CmdInfo(c).num, ccb>> \o body) >>)
